@@ -161,7 +161,84 @@ def rule_symmetry(ctx):
             yield o
 
 
+def rule_nceform(ctx):
+    """Which quantity normalises which, in nce(): facets of the documented definition."""
+    R = "C16.NCEFORM"
+    f = ctx.program.func("segment.nce", R)
+    s = ctx.S.get(f.qual)
+    main = [r for r in s.returns if r.term.op == "tuple" and not all(is_lit(x) for x in r.term.a)]
+    need(len(main) == 1, R, "nce: main return not found")
+    over, under, fm = main[0].term.a
+
+    def parts(score):
+        # ite(z > 0, 1 - h / z, 0)
+        for x in tm.walk(score):
+            if x.op == "bin" and x.a[0] == "-" and tm.is_const(x.a[1], 1) and x.a[2].op == "bin" and x.a[2].a[0] == "/":
+                return x.a[2].a[1], x.a[2].a[2]
+        return None, None
+
+    for name, score, axis_marg, dim in (("under", under, 1, 0), ("over", over, 0, 1)):
+        h, z = parts(score)
+        good = False
+        why = "score is not 1 - H / Z"
+        if z is not None and z.op == "ite" and z.a[0].op == "param" and z.a[0].a[0] == "marginal":
+            zm, zu = z.a[1], z.a[2]
+            # uniform: log2(contingency.shape[dim]); marginal: entropy(contingency.sum(axis=axis_marg))
+            u_ok = zu.op == "call" and call_name(zu) == "np.log2" and zu.a[1][0].op == "sub" and zu.a[1][0].a[0].op == "attr" and zu.a[1][0].a[0].a[1] == "shape" and tm.is_const(zu.a[1][0].a[1], dim) and any(x.op == "call" and call_name(x) == "segment._contingency_matrix" for x in tm.walk(zu))
+            m_ok = zm.op == "call" and call_name(zm) == "scipy.stats.entropy" and zm.a[1][0].op == "call" and call_name(zm.a[1][0]) == "np.sum" and tm.is_const(dict(zm.a[1][0].a[2]).get("axis", tm.none()), axis_marg) and tm.is_const(dict(zm.a[2]).get("base", tm.none()), 2)
+            good = u_ok and m_ok
+            why = "S_%s = 1 - H / Z with Z = log2(#%s classes of the contingency table) or, with marginal=True, the base-2 entropy of the %s marginal" % (name, "reference" if dim == 0 else "estimated", "reference" if dim == 0 else "estimated")
+            if not u_ok:
+                why = "the uniform normaliser of S_%s is %s, not log2 of dimension %d of the contingency table" % (name, tm.show(zu, 3), dim)
+        yield ob(R, f, "segment.nce:normaliser-%s" % name, good, why)
+        # conditional entropy: marginal of the *other* side dotted with column entropies
+        hok = h is not None and h.op == "call" and call_name(h) == "np.dot" and any(x.op == "call" and call_name(x) == "scipy.stats.entropy" and tm.is_const(dict(x.a[2]).get("base", tm.none()), 2) for x in tm.walk(h))
+        yield ob(R, f, "segment.nce:conditional-entropy-%s" % name, hok, "H is a marginal-weighted sum of base-2 column entropies of the (transposed) table")
+    # the table is normalised by the number of frames
+    div = [d for d in s.by_kind("div") if d.num.op == "call" and call_name(d.num) == "astype" and any(x.op == "call" and call_name(x) == "segment._contingency_matrix" for x in tm.walk(d.num))]
+    good = len(div) == 1 and div[0].den.op == "call" and call_name(div[0].den) == "builtins.len"
+    yield ob(R, f, "segment.nce:joint-distribution", good, "the contingency table is divided by the number of frames (joint distribution)")
+
+
+def rule_framegrid(ctx):
+    R = "C16.FRAMEGRID"
+    f = ctx.program.func("util.intervals_to_samples", R)
+    s = ctx.S.get(f.qual)
+    ar = [c for c in s.calls() if c.callee == "np.arange"]
+    need(len(ar) == 1, R, "intervals_to_samples: np.arange grid not found")
+    n = ar[0].args[0]
+    good = n.op == "call" and call_name(n) == "builtins.int" and n.a[1][0].op == "call" and call_name(n.a[1][0]) == "np.floor"
+    inner = n.a[1][0].a[1][0] if good else None
+    good = good and inner.op == "bin" and inner.a[0] == "/" and inner.a[1].op == "call" and call_name(inner.a[1]) == "np.max" and inner.a[1].a[1][0].op == "param" and inner.a[2].op == "param" and inner.a[2].a[0] == "sample_size"
+    yield ob(R, f, "util.intervals_to_samples:frame-count", good, "number of frames = int(floor(intervals.max() / sample_size)) (true division, then floor)" if good else "frame count is %s" % tm.show(n, 4))
+    c = [x for x in s.calls() if x.callee == "util.interpolate_intervals"]
+    need(len(c) == 1, R, "interpolate_intervals call not found")
+    grid = c[0].args[2]
+    g = grid
+    if g.op == "call" and call_name(g) == ".tolist":
+        g = g.a[1][0]
+    good = g.op == "bin" and g.a[0] == "+" and any(z.op == "param" and z.a[0] == "offset" for z in (g.a[1], g.a[2])) and any(z.op == "bin" and z.a[0] == "*" and any(w.op == "param" and w.a[0] == "sample_size" for w in (z.a[1], z.a[2])) and any(w is ar[0].term for w in (z.a[1], z.a[2])) for z in (g.a[1], g.a[2]))
+    yield ob(R, f, "util.intervals_to_samples:grid", good, "sample times = arange(n) * sample_size + offset, and labels are looked up at those very times")
+    need(len(s.returns) == 1 and s.returns[0].term.op == "tuple", R, "(times, labels) return expected")
+    t0 = s.returns[0].term.a[0]
+    yield ob(R, f, "util.intervals_to_samples:returned-times", t0 is grid, "the returned sample times are the ones the labels were looked up at")
+    okd, dv = f.default_value("sample_size")
+    yield ob(R, f, "util.intervals_to_samples:default", okd and dv == 0.1, "default sample_size is %r" % (dv,))
+
+
+def rule_perfectari(ctx):
+    from . import c02
+
+    for o in c02.rule_perfectconst(ctx):
+        if o.construct.startswith("segment."):
+            o.rule = "C16.TRIVIALGUARD"
+            yield o
+
+
 RULES = [
+    ("C16.NCEFORM", 5, rule_nceform),
+    ("C16.FRAMEGRID", 4, rule_framegrid),
+    ("C16.TRIVIALGUARD", 3, rule_perfectari),
     ("C16.WRAPPERID", 5, rule_wrapperid),
     ("C16.CASEFOLD", 13, rule_casefold),
     ("C16.FDERIV", 14, rule_fderiv),
